@@ -58,18 +58,21 @@ pub struct GraphCase {
     /// the stale file at every output path is the *fresh* content followed by extra lines (a
     /// comparison that only looks at a prefix would call it up to date)
     pub stale_ext: bool,
+    /// every file lives in `store/`; the requested directory `proj/` holds only symbolic links to
+    /// the sources (a linked source counts as its target: processed once, output beside the target)
+    pub linked: bool,
 }
 
 impl GraphCase {
     pub fn new(n: usize, mask: u64) -> Self {
-        Self { n, mask, kinds: 0, requested: (0..n).collect(), input_style: 0, threads: 2, stale: true, dup_edges: false, markers: true, obs: false, mode: Mode::Build, subdirs: false, fail_at: None, fail_kind: 0, after_only: false, vanish: false, slow_ms: 0, shaped: false, big: false, spaced: false, no_tail: false, stale_ext: false }
+        Self { n, mask, kinds: 0, requested: (0..n).collect(), input_style: 0, threads: 2, stale: true, dup_edges: false, markers: true, obs: false, mode: Mode::Build, subdirs: false, fail_at: None, fail_kind: 0, after_only: false, vanish: false, slow_ms: 0, shaped: false, big: false, spaced: false, no_tail: false, stale_ext: false, linked: false }
     }
     pub fn graph(&self) -> Graph {
         Graph::from_mask(self.n, self.mask, self.kinds)
     }
     pub fn to_json(&self, spec: &Spec) -> Value {
         json!({"kind": "graph", "n": self.n, "mask": self.mask, "kinds": self.kinds, "requested": self.requested, "input_style": self.input_style, "threads": self.threads,
-            "stale": self.stale, "dup_edges": self.dup_edges, "markers": self.markers, "obs": self.obs, "mode": mode_name(&self.mode), "subdirs": self.subdirs, "fail_at": self.fail_at, "fail_kind": self.fail_kind, "after_only": self.after_only, "vanish": self.vanish, "slow_ms": self.slow_ms, "shaped": self.shaped, "big": self.big, "spaced": self.spaced, "no_tail": self.no_tail, "stale_ext": self.stale_ext,
+            "stale": self.stale, "dup_edges": self.dup_edges, "markers": self.markers, "obs": self.obs, "mode": mode_name(&self.mode), "subdirs": self.subdirs, "fail_at": self.fail_at, "fail_kind": self.fail_kind, "after_only": self.after_only, "vanish": self.vanish, "slow_ms": self.slow_ms, "shaped": self.shaped, "big": self.big, "spaced": self.spaced, "no_tail": self.no_tail, "stale_ext": self.stale_ext, "linked": self.linked,
             "edges": self.graph().edges.iter().enumerate().map(|(i, e)| format!("f{i} -> {:?}", e.iter().map(|(j, k)| format!("f{j}{}", if *k == EdgeKind::AfterCat { "(after+cat)" } else { "" })).collect::<Vec<_>>())).collect::<Vec<_>>(),
             "schedule": spec_json(spec)})
     }
@@ -98,15 +101,18 @@ impl GraphCase {
                 spaced: v["spaced"].as_bool().unwrap_or(false),
                 no_tail: v["no_tail"].as_bool().unwrap_or(false),
                 stale_ext: v["stale_ext"].as_bool().unwrap_or(false),
+                linked: v["linked"].as_bool().unwrap_or(false),
             },
             spec_from_json(&v["schedule"]),
         )
     }
     pub fn hash(&self) -> u64 {
-        crate::util::hash_str(&format!("{:?}", (self.n, self.mask, self.kinds, &self.requested, self.input_style, self.threads, self.stale, self.dup_edges, self.subdirs, mode_name(&self.mode), (self.fail_at, self.fail_kind, self.after_only, self.vanish, self.shaped, self.big), (self.spaced, self.no_tail, self.stale_ext))))
+        crate::util::hash_str(&format!("{:?}", (self.n, self.mask, self.kinds, &self.requested, self.input_style, self.threads, self.stale, self.dup_edges, self.subdirs, mode_name(&self.mode), (self.fail_at, self.fail_kind, self.after_only, self.vanish, self.shaped, self.big), (self.spaced, self.no_tail, self.stale_ext, self.linked))))
     }
     fn dir_of(&self, i: usize) -> &'static str {
-        if self.subdirs && i % 2 == 1 {
+        if self.linked {
+            "store"
+        } else if self.subdirs && i % 2 == 1 {
             "d"
         } else {
             ""
@@ -175,7 +181,7 @@ pub struct GraphRun {
 fn build_files(case: &GraphCase, generation: u32, marker_log: Option<&str>, obs_log: Option<&str>) -> Files {
     let g = case.graph();
     let flat = graph_files(&g, generation, 0xabc0 + case.mask, if case.markers { marker_log } else { None }, if case.obs { obs_log } else { None }, case.dup_edges);
-    if !case.subdirs && case.fail_at.is_none() && !case.after_only && !case.vanish && case.slow_ms == 0 && !case.shaped && !case.big && !case.spaced && !case.no_tail {
+    if !case.subdirs && case.fail_at.is_none() && !case.after_only && !case.vanish && case.slow_ms == 0 && !case.shaped && !case.big && !case.spaced && !case.no_tail && !case.linked {
         return flat;
     }
     // re-home odd files into d/ and rewrite references accordingly; inject the failing command
@@ -270,7 +276,7 @@ fn inputs_of(case: &GraphCase) -> Vec<String> {
         }
     }
     if case.input_style >= 4 {
-        v.insert(0, ".".into());
+        v.insert(0, if case.linked { "proj".into() } else { ".".into() });
         if case.input_style == 5 {
             v.push(".".into());
         }
@@ -301,7 +307,17 @@ pub fn exec(ctx: &mut Ctx, case: &GraphCase, spec: Spec, log_events: bool) -> Gr
     if case.vanish {
         dirs.push("gone".to_string());
     }
+    if case.linked {
+        dirs.push("proj".to_string());
+    }
     materialize(&root, &files, &dirs);
+    if case.linked {
+        for i in 0..case.n {
+            let src = case.src_of(i);
+            let name = src.rsplit('/').next().unwrap().to_string();
+            let _ = std::os::unix::fs::symlink(format!("../{src}"), root.join("proj").join(&name));
+        }
+    }
     if let (Some(f), 8) = (case.fail_at, case.fail_kind) {
         // the model keeps the clean text; on disk a line in the middle of the source is undecodable
         let p = root.join(case.src_of(f));
